@@ -314,6 +314,70 @@ theorem ldlt_spd (A : Matrix ℝ) (hsq : A.rows = A.columns)
     rwa [Matrix.IsHermitian, Matrix.conjTranspose_eq_transpose_of_trivial] at this
   exact ⟨L, D, h, h2, h3, h4, h5, h6, h9 hsym⟩
 
+/-- **Completeness of LDLᵀ (explicit factors), any field, all sizes**: if the square input is
+    `L·diag(d)·Lᵀ` for a unit lower triangular `L` and a diagonal `d` without zeros, the model is
+    present and returns exactly `L` and `diag(d)` (so the factorisation is unique, and present on
+    every symmetric input whose leading principal minors do not vanish). -/
+theorem ldlt_complete {K : Type} [Field K] [NumOrd K]
+    (heq : ∀ a b : K, NumOrd.eq a b = true ↔ a = b) (A : Matrix K) (hsq : A.rows = A.columns)
+    (Lm : _root_.Matrix (Fin A.rows) (Fin A.rows) K) (d : Fin A.rows → K)
+    (hlow : ∀ i j, i < j → Lm i j = 0) (hone : ∀ i, Lm i i = 1) (hd : ∀ i, d i ≠ 0)
+    (hA : toMat A.rows A.rows A = Lm * Matrix.diagonal d * Lm.transpose) :
+    ∃ L D, ldlt A = some (L, D) ∧ Shaped A.rows A.rows L ∧ Shaped A.rows A.rows D ∧
+      toMat A.rows A.rows L = Lm ∧ toMat A.rows A.rows D = Matrix.diagonal d := by
+  let ℓ : ℕ → ℕ → K := fun a b =>
+    if h : a < A.rows ∧ b < A.rows then Lm ⟨a, h.1⟩ ⟨b, h.2⟩ else if a = b then 1 else 0
+  let dd : ℕ → K := fun a => if h : a < A.rows then d ⟨a, h⟩ else 1
+  have hℓ : ∀ (a b : Fin A.rows), ℓ a b = Lm a b := by
+    intro a b; simp only [ℓ]; rw [dif_pos ⟨a.isLt, b.isLt⟩]
+  have hdd : ∀ (a : Fin A.rows), dd a = d a := by
+    intro a; simp only [dd]; rw [dif_pos a.isLt]
+  have hlow' : ∀ a b, a < b → ℓ a b = 0 := by
+    intro a b hab
+    simp only [ℓ]
+    split
+    · next h => exact hlow ⟨a, h.1⟩ ⟨b, h.2⟩ hab
+    · rw [if_neg (by omega)]
+  have hone' : ∀ a, ℓ a a = 1 := by
+    intro a
+    simp only [ℓ]
+    split
+    · next h => exact hone ⟨a, h.1⟩
+    · simp
+  have hd' : ∀ a, a < A.rows → dd a ≠ 0 := by
+    intro a ha
+    have := hdd ⟨a, ha⟩
+    simp only [] at this
+    rw [this]; exact hd _
+  have hA' : ∀ a b, a < A.rows → b ≤ a →
+      get A a b = ∑ k ∈ range A.rows, ℓ a k * dd k * ℓ b k := by
+    intro a b ha hba
+    have hb : b < A.rows := by omega
+    have h1 := congrFun (congrFun hA ⟨a, ha⟩) ⟨b, hb⟩
+    rw [toMat_apply, Matrix.mul_apply] at h1
+    rw [h1, ← Fin.sum_univ_eq_sum_range (fun k => ℓ a k * dd k * ℓ b k) A.rows]
+    apply Finset.sum_congr rfl
+    intro k _
+    rw [Matrix.mul_diagonal, Matrix.transpose_apply, ← hℓ ⟨a, ha⟩ k, ← hℓ ⟨b, hb⟩ k, ← hdd k]
+  obtain ⟨L, D, h1, h2, h3, h4, h5⟩ := ldlt_complete_aux heq hsq hlow' hone' hd' hA'
+  refine ⟨L, D, h1, h2, h3, ?_, ?_⟩
+  · ext i j
+    rw [toMat_apply, h4 i j i.isLt j.isLt, hℓ]
+  · ext i j
+    rw [toMat_apply, h5 i j i.isLt j.isLt, Matrix.diagonal_apply]
+    by_cases hij : i = j
+    · rw [if_pos (by rw [hij]), if_pos hij, hdd]
+    · rw [if_neg (fun h => hij (Fin.ext h)), if_neg hij]
+
+/-- Non-vacuity (over ℚ): `[[2,4],[4,3]] = L·diag(2,−5)·Lᵀ` with `L = [[1,0],[2,1]]`. -/
+example : toMat 2 2 (⟨[2, 4, 4, 3], 2, 2⟩ : Matrix ℚ)
+    = (!![1, 0; 2, 1] : _root_.Matrix (Fin 2) (Fin 2) ℚ) * Matrix.diagonal ![2, -5]
+      * (!![1, 0; 2, 1] : _root_.Matrix (Fin 2) (Fin 2) ℚ).transpose := by
+  ext i j
+  fin_cases i <;> fin_cases j <;>
+    simp [toMat, Decomp.get, EasyMl.Matrix.getIndex, Matrix.mul_apply, Fin.sum_univ_two,
+      Matrix.vecMul, dotProduct, Matrix.diagonal_apply] <;> norm_num
+
 /-- **Absence of LDLᵀ ⇔ non-square input or a zero pivot.**  The model is absent exactly when
     the input is not square or when, with the columns before `j` computed, the `j`-th pivot
     `A[j,j] − Σ_{k<j} L[j,k]²·D[k,k]` is zero. -/
@@ -481,6 +545,84 @@ example : (⟨[⟨5⟩], 1, 1⟩ : Matrix Fp).Inv := by decide
 example : (toMat 2 2 (⟨[4, 2, 2, 5], 2, 2⟩ : Matrix ℝ)).transpose = toMat 2 2 ⟨[4, 2, 2, 5], 2, 2⟩ := by
   ext i j
   fin_cases i <;> fin_cases j <;> simp [toMat, Decomp.get, EasyMl.Matrix.getIndex]
+
+/-! ### uniqueness, and the relation between the two symmetric factorisations -/
+
+/-- **The Cholesky factor is unique**: two lower-triangular real matrices with positive diagonals
+    and the same product `M·Mᵀ` are equal — both are what the model computes from that product. -/
+theorem cholesky_unique {n : ℕ} (M₁ M₂ : _root_.Matrix (Fin n) (Fin n) ℝ)
+    (hlow₁ : ∀ i j, i < j → M₁ i j = 0) (hpos₁ : ∀ i, 0 < M₁ i i)
+    (hlow₂ : ∀ i j, i < j → M₂ i j = 0) (hpos₂ : ∀ i, 0 < M₂ i i)
+    (h : M₁ * M₁.transpose = M₂ * M₂.transpose) : M₁ = M₂ := by
+  -- the model tensor of the common product
+  let A : Matrix ℝ := ofFn n n fun i j =>
+    if hij : i < n ∧ j < n then (M₁ * M₁.transpose) ⟨i, hij.1⟩ ⟨j, hij.2⟩ else 0
+  have hA : toMat n n A = M₁ * M₁.transpose := by
+    ext i j
+    rw [toMat_apply, get_ofFn _ _ _ _ _ i.isLt j.isLt, dif_pos ⟨i.isLt, j.isLt⟩]
+  obtain ⟨L₁, h1, _, e1⟩ := cholesky_complete A rfl M₁ hlow₁ hpos₁ hA
+  obtain ⟨L₂, h2, _, e2⟩ := cholesky_complete A rfl M₂ hlow₂ hpos₂ (hA.trans h)
+  rw [h1] at h2
+  cases h2
+  exact e1.symm.trans e2
+
+/-- **LDLᵀ and Cholesky of a positive definite input are related by `L_chol = L·√D`**: both
+    models are present, every diagonal entry of `D` is positive, and column `j` of the Cholesky
+    factor is column `j` of the unit-triangular `L` scaled by `√D[j,j]`. -/
+theorem cholesky_eq_ldlt_sqrt (A : Matrix ℝ) (hsq : A.rows = A.columns)
+    (hPD : (toMat A.rows A.rows A).PosDef) :
+    ∃ Lc L D, cholesky A = some Lc ∧ ldlt A = some (L, D) ∧
+      (∀ i : Fin A.rows, 0 < toMat A.rows A.rows D i i) ∧
+      ∀ i j : Fin A.rows,
+        toMat A.rows A.rows Lc i j = toMat A.rows A.rows L i j * Real.sqrt (toMat A.rows A.rows D j j) := by
+  obtain ⟨L, D, hld, _, _, hlow, hone, hdiag, hprod⟩ := ldlt_spd A hsq hPD
+  set Lm := toMat A.rows A.rows L with hLm
+  set Dm := toMat A.rows A.rows D with hDm
+  -- `L` is invertible, so `D` is positive definite
+  have hdet : Lm.det = ∏ i, Lm i i := Matrix.det_of_isLowerTriangular Lm (fun i j hij => hlow i j hij)
+  have hunit : IsUnit Lm := by
+    rw [Matrix.isUnit_iff_isUnit_det, hdet]
+    simp [hone]
+  have hDpd : Dm.PosDef := by
+    have h1 : (Lm * Dm * star Lm).PosDef := by
+      rw [Matrix.star_eq_conjTranspose, Matrix.conjTranspose_eq_transpose_of_trivial, hprod]
+      exact hPD
+    exact (Matrix.IsUnit.posDef_star_right_conjugate_iff hunit).mp h1
+  have hDpos : ∀ i, 0 < Dm i i := fun i => hDpd.diag_pos
+  -- the Cholesky factor
+  let M : _root_.Matrix (Fin A.rows) (Fin A.rows) ℝ := fun i j => Lm i j * Real.sqrt (Dm j j)
+  have hLD : ∀ i k, (Lm * Dm) i k = Lm i k * Dm k k := by
+    intro i k
+    rw [Matrix.mul_apply, Finset.sum_eq_single k]
+    · intro b _ hbk
+      rw [hdiag b k hbk, mul_zero]
+    · intro hk; exact absurd (Finset.mem_univ k) hk
+  have hMM : toMat A.rows A.rows A = M * M.transpose := by
+    rw [← hprod]
+    ext i j
+    rw [Matrix.mul_apply, Matrix.mul_apply]
+    apply Finset.sum_congr rfl
+    intro k _
+    rw [hLD, Matrix.transpose_apply, Matrix.transpose_apply]
+    simp only [M]
+    have := Real.mul_self_sqrt (hDpos k).le
+    calc Lm i k * Dm k k * Lm j k = Lm i k * (Real.sqrt (Dm k k) * Real.sqrt (Dm k k)) * Lm j k := by rw [this]
+      _ = Lm i k * Real.sqrt (Dm k k) * (Lm j k * Real.sqrt (Dm k k)) := by ring
+  have hMlow : ∀ i j, i < j → M i j = 0 := by
+    intro i j hij; simp only [M]; rw [hlow i j hij, zero_mul]
+  have hMpos : ∀ i, 0 < M i i := by
+    intro i; simp only [M]; rw [hone i, one_mul]; exact Real.sqrt_pos.mpr (hDpos i)
+  obtain ⟨Lc, hc, _, hcm⟩ := cholesky_complete A hsq M hMlow hMpos hMM
+  refine ⟨Lc, L, D, hc, hld, hDpos, ?_⟩
+  intro i j
+  rw [hcm]
+
+/-- Non-vacuity of `cholesky_unique`: the factor `[[2,0],[1,2]]` meets the hypotheses. -/
+example : (∀ i j : Fin 2, i < j → (!![2, 0; 1, 2] : _root_.Matrix (Fin 2) (Fin 2) ℝ) i j = 0) ∧
+    (∀ i : Fin 2, 0 < (!![2, 0; 1, 2] : _root_.Matrix (Fin 2) (Fin 2) ℝ) i i) := by
+  constructor
+  · intro i j hij; fin_cases i <;> fin_cases j <;> simp_all
+  · intro i; fin_cases i <;> simp
 
 /-! ### shape rejection -/
 
